@@ -75,6 +75,27 @@ theorem C19_space_copy_faithful (w : World) (s : Nat) (w' : World) (s' : Nat) (h
   obtain ⟨cv, av, h1, _, h2⟩ := copy_view s hc
   exact ⟨cv, av, h1, h2⟩
 
+/-- the `unique_id`s of a list of agents, in order -/
+def uidsOf (w : World) (l : List Nat) : List Nat := l.filterMap fun a => (w.agents a).map (·.uid)
+
+/-- **Same occupancy, in values.**  In a reachable world, every cell of the copied space has a twin in the copy with the same
+    coordinate index and capacity that lists agents with the same `unique_id`s in the same order (and as many of them). -/
+theorem C19_space_copy_same_occupancy (w : World) (hi : Inv w) (s : Nat) (sr : SpaceRec) (hs : w.spaces s = some sr)
+    (w' : World) (s' : Nat) (hc : copySpace w s = some (w', s')) (c : Nat) (hcs : c ∈ sr.cells) (cr : CellRec)
+    (hcr : w.cells c = some cr) :
+    ∃ cr', w'.cells (c + w.next) = some cr' ∧ cr'.idx = cr.idx ∧ cr'.cap = cr.cap ∧
+      cr'.agents.length = cr.agents.length ∧ uidsOf w' cr'.agents = uidsOf w cr.agents := by
+  simp only [copySpace, hs, Option.some.injEq, Prod.mk.injEq] at hc
+  obtain ⟨rfl, rfl⟩ := hc
+  have hin : sr.cells.contains c = true := by simpa using hcs
+  refine ⟨shiftCell w.next cr, by rw [copyWorld_cells_shift, hin, if_pos rfl, hcr]; rfl, rfl, rfl, by simp [shiftCell], ?_⟩
+  simp only [uidsOf, shiftCell, List.filterMap_map]
+  apply filterMap_congr'
+  intro a ha
+  have hreg : sr.reg.contains a = true := by simpa using hi.listed_reg hs hcs hcr ha
+  simp only [Function.comp, copyWorld_agents_shift, hreg, if_true]
+  cases w.agents a <;> simp [shiftAgent]
+
 /-- **No reference of the copy leads to an old object.**  Everything the copy shows — its cells, the agents they list, their
     connection targets, their generator and class, its registered agents and the cells they point to — is an object created
     by the copy. -/
@@ -168,6 +189,8 @@ def demoCopy (good : Bool) : World :=
 
 example : view (demoCopy true) 7 = some ([(8, 0, some 2, [], [9], 7, some 7), (9, 1, some 2, [11, 12], [8, 10], 7, some 7),
     (10, 2, some 2, [], [9], 7, some 7)], [(11, 1, some 9), (12, 2, some 9), (13, 3, none)]) := by rfl
+
+example : uidsOf demo [4, 5] = [1, 2] ∧ uidsOf (demoCopy true) [11, 12] = [1, 2] := by decide
 
 /-- **The code before S22 violates the property**: the same cells, capacities, occupancy and connections come back, but
     the copied agents point to cells (16) that are not cells of the copied space — while the repaired copy has no such agent. -/
